@@ -84,6 +84,9 @@ class EngineB:
         if m:
             # covers in branches that are dead by construction (constant harness flags) are reported "unreachable": not counted
             h.cover_ok, h.cover_total = int(m.group(1)), int(m.group(2)) - int(m.group(3) or 0)
+        mc = re.search(r'\*\* (\d+) of (\d+) failed', out)
+        h.checks_total = int(mc.group(2)) if mc else None
+        h.checks_failed = int(mc.group(1)) if mc else None
         m = re.search(r'Verification Time: ([\d.]+)s', out)
         h.cbmc_secs = float(m.group(1)) if m else None
 
@@ -104,7 +107,8 @@ class EngineB:
             list(ex.map(one, harnesses))
         for h in harnesses:
             rec = {'harness': h.name, 'features': h.features, 'verdict': h.verdict, 'expect': h.expect, 'seconds': round(h.secs, 1), 'required': h.required, 'meaning': h.meaning,
-                   'cover_satisfied': h.cover_ok, 'cover_total': h.cover_total, 'failed_checks': h.failed_checks[:6]}
+                   'cover_satisfied': h.cover_ok, 'cover_total': h.cover_total, 'failed_checks': h.failed_checks[:6],
+                   'cbmc_checks_total': getattr(h, 'checks_total', None), 'cbmc_seconds': getattr(h, 'cbmc_secs', None)}
             ck.kani.append(rec)
             ck.solver_seconds += h.secs
             if h.verdict == 'SUCCESSFUL':
@@ -145,7 +149,7 @@ def native_playback(B, h, vecs, release=False):
                     src = p
     if not src:
         return None, 'harness source not found'
-    test = '\n#[test]\nfn verif_playback() {\n    let concrete_vals: Vec<Vec<u8>> = vec![' + ', '.join('vec![' + ', '.join(map(str, v)) + ']' for v in vecs) + \
+    test = '\n#[test]\nfn verif_playback() {\n    extern crate std;\n    let concrete_vals: std::vec::Vec<std::vec::Vec<u8>> = std::vec![' + ', '.join('std::vec![' + ', '.join(map(str, v)) + ']' for v in vecs) + \
            f'];\n    kani::concrete_playback_run(concrete_vals, {h.name});\n}}\n'
     # place the test in the same module as the harness (nested `mod` blocks: append before the final closing brace of that mod if needed)
     txt = open(src).read()
